@@ -182,10 +182,31 @@ func (g *gen) nestedRecord(tm *Message, name, ind string) (apply []string) {
 // decodeStep emits the C03 harness for one field: arbitrary pre-state, one well-typed
 // record, expected post-state computed on a clone.
 func (g *gen) decodeStep(m *Message, f *Field, h2 bool) {
+	if f.Card == "map" {
+		for shape := 0; shape < 5; shape++ {
+			g.decodeStepShape(m, f, h2, shape)
+		}
+		return
+	}
+	g.decodeStepShape(m, f, h2, -1)
+}
+
+func (g *gen) decodeStepShape(m *Message, f *Field, h2 bool, shapeNo int) {
 	n := m.GoName
 	suffix := ""
+	if shapeNo >= 0 {
+		suffix = fmt.Sprintf("_shape%d", shapeNo)
+	}
+	if f.Card == "oneof" && f.Kind == "message" {
+		suffix = "_oneofmsg"
+	}
 	if h2 {
-		suffix = "_h2"
+		suffix += "_h2"
+	}
+	saveStr := g.strLen
+	if f.Card == "map" {
+		g.strLen = 4
+		defer func() { g.strLen = saveStr }()
 	}
 	g.p("func VH_C03_%s_%s%s() {", n, f.GoName, suffix)
 	g.p("\tx := &%s{}", n)
@@ -315,7 +336,7 @@ func (g *gen) decodeStep(m *Message, f *Field, h2 bool) {
 		if f.Val.Kind == "message" && f.Val.MsgName != "" {
 			g.p("\tvalue = &%s{} // a missing value is an empty message in the reference", f.Val.MsgName)
 		}
-		g.p("\tshape := vhChoice(\"shape\", 5) // 0: k,v  1: v,k  2: k only  3: v only  4: empty")
+		g.p("\tconst shape = %d // 0: k,v  1: v,k  2: k only  3: v only  4: empty", shapeNo)
 		g.p("\tputKey := func() {")
 		g.p("\t\tentry = vhTag(entry, 1, protowire.%sType, \"k\")", wireKind(f.Key))
 		g.decodeWireBounded(f.Key, "entry", "\"kv\"", "\t\t", g.keyLen)
